@@ -62,7 +62,7 @@ SetupsQuick ==
 
 \* for the two-value alphabet
 SetupsQuick2 ==
-  {HashSetup(sk, m, m, {0, 1}, salt) : sk \in ShardKeys, m \in {2, 3}, salt \in {0, 1}}
+  {HashSetup(sk, m, m, {0, 1}, 0) : sk \in ShardKeys, m \in {2, 3}}
   \cup {RangeSetup(<<"host">>, << K1("b") >>, {0, 1}, 0)}
   \cup {RangeSetup(<<"host", "region">>, b, {0, 1}, 0) : b \in {<< K1("b") >>, << K2("a", "b"), K2("b", "a") >>}}
 
@@ -80,6 +80,12 @@ SetupsExport ==
   {HashSetup(sk, m, 4, {0, 1, 3}, 0) : sk \in ShardKeys, m \in {2, 3, 4}}
   \cup {HashSetup(sk, m, m, {1}, 0) : sk \in ShardKeys, m \in {1, 8}}
   \cup UNION {{RangeSetup(sk, b, {0, 1}, s) : b \in BoundsFor(sk), s \in {-1, 0, 1}} : sk \in RangeKeys}
+
+SetupsExportQuick ==
+  {HashSetup(sk, 3, 4, {0, 1, 3}, 0) : sk \in ShardKeys}
+  \cup {HashSetup(sk, 4, 4, {1}, 0) : sk \in ShardKeys}
+  \cup UNION {{RangeSetup(sk, b, {0, 1}, 0) : b \in BoundsFor(sk)} : sk \in RangeKeys}
+  \cup {RangeSetup(<<"host">>, << K1("b"), K1("c") >>, {0, 1}, -1)}
 
 \* ---- simulation: a few random trees per step ----------------------------------------------------
 \* (parameterised by the step so that TLC does not cache them as constants)
